@@ -101,6 +101,29 @@ class LifterModel(object):
                 raise KeyError(k)
         mf = _MF((k, recorder('mnemo_func')) for k in self.mnemo_func)
         scope = {'mnemo_func': mf, 'MMXnoflags': recorder('MMXnoflags'), 'ExprInt': _ExprInt, 'x86_afs': self.X.afs}
+        # helpers get_instr_expr_args imports from ia32_sem (predicates over the instruction and its operands) are evaluated from their source; the node classes they may
+        # test with isinstance are checker-side classes none of the stand-in operands belongs to, except ExprInt
+        for st in self.eh.tree.body:
+            if isinstance(st, ast.ImportFrom) and st.module and st.module.endswith('ia32_sem'):
+                for al in st.names:
+                    if al.name in self.sem.funcs and al.name not in scope:
+                        def helper(*a, _n=al.name, _f=self.sem.funcs[al.name]):
+                            # a predicate is evaluated; a function that builds IR (outside the evaluable subset here) is a semantic function: recorded like the others
+                            try:
+                                return Evaluator(scope).call_user(_f, list(a))
+                            except NotConst:
+                                seen.append((_n, a))
+                                return []
+                        scope[al.asname or al.name] = Native(helper)
+        for cn_ in ('ExprMem', 'ExprId', 'ExprOp', 'ExprSlice', 'ExprCompose', 'ExprCond', 'ExprAff'):
+            scope.setdefault(cn_, type('_' + cn_, (object,), {}))
+        for st in self.sem.tree.body:
+            if isinstance(st, ast.Assign) and len(st.targets) == 1 and isinstance(st.targets[0], ast.Name) and isinstance(st.value, (ast.List, ast.Tuple, ast.Constant)) \
+                    and st.targets[0].id not in scope:
+                try:
+                    scope[st.targets[0].id] = Evaluator({}).ev(st.value)
+                except NotConst:
+                    pass
         for st in self.eh.tree.body:
             if isinstance(st, ast.Assign) and len(st.targets) == 1 and isinstance(st.targets[0], ast.Name) and isinstance(st.value, (ast.List, ast.Tuple)):
                 try:
@@ -110,7 +133,15 @@ class LifterModel(object):
         for fname_, fnode_ in self.eh.funcs.items():
             scope.setdefault(fname_, fnode_)
         try:
+            # the dispatch must not depend on whether the two operands are one object (the form model lifts `op r, r` like `op r1, r2`): asked first with the same
+            # operand twice, then - the answer that is used - with two operands
+            Evaluator(dict(scope)).call_user(fn, [l, [A0, A0], EIP])
+            same_ = [c_ for c_, _ in seen]
+            del seen[:]
             Evaluator(scope).call_user(fn, [l, [A0, A1], EIP])
+            if same_ != [c_ for c_, _ in seen]:
+                raise AnalysisError('get_instr_expr_args dispatches %s differently when both operands are the same register (%s / %s): instructions naming one register twice '
+                                    'are not in the form model' % (name, same_, [c_ for c_, _ in seen]))
         except PyRaise as e:
             if e.exc_name == 'KeyError':
                 cache[key] = ('l', '*args')         # no lifter: the failing lookup of the last branch
